@@ -358,17 +358,19 @@ pub mod shim_u {
             }
         }
     }
-    /// assumed: `&raw[a..b]` -- the offsets are those of ASCII delimiters (or behind one), hence character boundaries;
-    /// the slice has the bytes between them
+    /// assumed (std documentation of `str` indexing): `&raw[a..b]` with both offsets on character boundaries does not
+    /// panic and is the string of the bytes between them. That the offsets ARE character boundaries is proved by the
+    /// caller (they are positions of ASCII delimiters or directly behind one: lemma_ascii_boundaries)
     #[verifier::external_body]
     pub fn str_slice<'a>(raw: &'a str, a: usize, b: usize) -> (r: &'a str)
-        requires a <= b <= raw.spec_bytes().len()
+        requires a <= b <= raw.spec_bytes().len(),
+            vstd::utf8::is_char_boundary(raw.spec_bytes(), a as int), vstd::utf8::is_char_boundary(raw.spec_bytes(), b as int),
         ensures r.spec_bytes() == raw.spec_bytes().subrange(a as int, b as int)
     { &raw[a..b] }
-    /// assumed: `raw.get(a..)` with `a` behind an ASCII delimiter (or 0)
+    /// assumed (std documentation of `str::get`): `raw.get(a..)` with `a` on a character boundary is Some(tail)
     #[verifier::external_body]
     pub fn str_from<'a>(raw: &'a str, a: usize) -> (r: Option<&'a str>)
-        requires a <= raw.spec_bytes().len()
+        requires a <= raw.spec_bytes().len(), vstd::utf8::is_char_boundary(raw.spec_bytes(), a as int),
         ensures r matches Some(t) && t.spec_bytes() == raw.spec_bytes().subrange(a as int, raw.spec_bytes().len() as int)
     { raw.get(a..) }
     /// assumed: `s.push_str(c.encode_utf8(&mut [0u8; 4]))` appends the character
@@ -415,6 +417,30 @@ pub proof fn lemma_first_delim(s: Seq<u8>, from: int)
 pub open spec fn charref_value(body: Seq<u8>) -> Option<nat> {
     let (digits, radix) = charref_digits(body);
     match digits_value(digits, radix) { Some(v) => if v != 0 && is_scalar(v) { Some(v) } else { None }, None => None }
+}
+/// in valid UTF-8 the position of an ASCII byte and the position behind it are character boundaries (proved from
+/// vstd's UTF-8 theory): this is why slicing at '&' / ';' cannot panic
+pub proof fn lemma_ascii_boundaries(s: Seq<u8>, i: int)
+    requires valid_utf8(s), 0 <= i < s.len(), s[i] < 0x80
+    ensures is_char_boundary(s, i), is_char_boundary(s, i + 1)
+{
+    is_char_boundary_iff_not_is_continuation_byte(s, i);
+    valid_utf8_split(s, i);
+    let t = s.subrange(i, s.len() as int);
+    assert(t[0] == s[i]);
+    reveal_with_fuel(valid_utf8, 3);
+    assert(length_of_first_scalar(t) == 1);
+    assert(pop_first_scalar(t) =~= t.subrange(1, t.len() as int));
+    let u = s.subrange(i + 1, s.len() as int);
+    assert(u =~= t.subrange(1, t.len() as int));
+    if i + 1 < s.len() {
+        is_char_boundary_iff_not_is_continuation_byte(s, i + 1);
+        is_char_boundary_start_end_of_seq(u);
+        is_char_boundary_iff_not_is_continuation_byte(u, 0);
+        assert(u[0] == s[i + 1]);
+    } else {
+        is_char_boundary_start_end_of_seq(s);
+    }
 }
 /// the bytes written so far
 pub open spec fn acc_bytes(u: Option<String>) -> Seq<u8> { match u { Some(x) => encode_utf8(x@), None => Seq::<u8>::empty() } }
@@ -506,7 +532,7 @@ where
     let mut unescaped: Option<String> = None;
     let mut last_end = 0;
     let mut iter = memchr2_iter(b'&', b';', bytes);
-    proof { lemma_first_amp(s, 0); }
+    proof { lemma_first_amp(s, 0); encode_utf8_valid_utf8(raw@); is_char_boundary_start_end_of_seq(s); }
     loop
         invariant_except_break
             iter.pos == last_end,
@@ -514,12 +540,14 @@ where
             bytes@ == s, s == raw.spec_bytes(), iter.wf(), iter.hay == bytes, iter.n1 == 0x26, iter.n2 == 0x3b, iter.n3 == 0x3b, last_end <= s.len(),
             forall|p: &str| resolve_entity.requires((p,)),
             unescaped is None ==> last_end == 0,
+            valid_utf8(s), is_char_boundary(s, last_end as int),
             // continuation form: whatever the rest unescapes to, the whole unescapes to what has been written plus that
             forall|rest: Seq<u8>| #[trigger] unesc_ok(s, last_end as int, resolve_entity, rest) ==> unesc_ok(s, 0, resolve_entity, acc_bytes(unescaped) + rest),
             unesc_err(s, last_end as int, resolve_entity) ==> unesc_err(s, 0, resolve_entity),
             unescaped is None ==> first_amp(s, 0) == first_amp(s, last_end as int),
             unescaped is Some ==> first_amp(s, 0) is Some,
         ensures
+            is_char_boundary(s, last_end as int),
             unescaped is Some ==> first_amp(s, 0) is Some,
             last_end <= s.len(), first_amp(s, last_end as int) is None,
             unescaped is None ==> last_end == 0,
@@ -535,7 +563,12 @@ where
         let ghost acc0 = acc_bytes(unescaped);
         match iter.next() {
             Some(end) if bytes[end] == b';' => {
-                proof { assert(first_delim(s, start + 1) == Some(end as int)); }
+                proof {
+                    assert(first_delim(s, start + 1) == Some(end as int));
+                    // '&' at start and ';' at end are ASCII: start, start + 1, end, end + 1 are character boundaries
+                    lemma_ascii_boundaries(s, start as int);
+                    lemma_ascii_boundaries(s, end as int);
+                }
                 // append valid data
                 if unescaped.is_none() {
                     unescaped = Some(String::with_capacity(raw.len()));
